@@ -3,6 +3,7 @@
 From GX.Model Require Import Base CMS.
 From GX.Model Require Import Redis RedisCMS.
 From GX.Proofs Require Import ListLemmas CMSProofs CMSApi RedisCMSRefine.
+From GX.Proofs Require Import NonVacuity.
 
 (* In-memory variant, for every position function with in-range results (hence every hash),
    every rows >= 1, columns >= 1 (the constructor rejects 0), every update history whose total
@@ -77,6 +78,10 @@ Proof. intros rows cols [-> | ->]; unfold cms_new; [reflexivity|]. now rewrite o
 (* non-vacuity: a concrete 1x1 and a 2x3 sketch satisfy the premises *)
 Example C03_premises_hold : exists s0, cms_new 2 3 = Ok s0 /\ total [([1], 5); ([2], 7)] < two64.
 Proof. eexists; split; [reflexivity|]. vm_compute. reflexivity. Qed.
+
+(* the refinement's premise is met by a concrete Redis sketch (new, then one update of 5) *)
+Example C03_redis_premises_hold : exists s h m, refines 2 3 s h m /\ cms_count cpos1 m [7] = 5.
+Proof. exact refines_inhabited. Qed.
 
 Print Assumptions C03_mem_bounds.
 Print Assumptions C03_mem_exact_single.
